@@ -227,6 +227,35 @@ func refScale(q *big.Int, A *Mat, g *big.Int) *Mat {
 	return o
 }
 
+func refAugment(A, B *Mat) *Mat {
+	o := &Mat{R: A.R, C: A.C + B.C}
+	for i := 0; i < A.R; i++ {
+		o.E = append(o.E, A.E[i*A.C:(i+1)*A.C]...)
+		o.E = append(o.E, B.E[i*B.C:(i+1)*B.C]...)
+	}
+	return o
+}
+
+func refMinor(M *Mat, r, c int) *Mat {
+	o := &Mat{R: M.R - 1, C: M.C - 1}
+	for i := 0; i < M.R; i++ {
+		for j := 0; j < M.C; j++ {
+			if i != r && j != c {
+				o.E = append(o.E, M.at(i, j))
+			}
+		}
+	}
+	return o
+}
+
+func refSetCol(M *Mat, c int, d []*big.Int) *Mat {
+	o := M.clone()
+	for i := 0; i < M.R; i++ {
+		o.E[i*M.C+c] = d[i]
+	}
+	return o
+}
+
 func refIdentity(n int) *Mat {
 	o := &Mat{R: n, C: n, E: zeros(n * n)}
 	for i := 0; i < n; i++ {
